@@ -242,7 +242,7 @@ def _opaque_map(expr):
                 fresh = root_key not in mapping
                 r = dummy(root_key)
                 if fresh:
-                    relations.append(r ** int(x.q) - wb)
+                    relations.append((r ** int(x.q) - wb, r, 'root'))
                 return r ** int(x.p)
             return dummy(e)
         if isinstance(e, (sp.sin, sp.cos)):
@@ -250,7 +250,7 @@ def _opaque_map(expr):
             fresh = sp.sin(a) not in mapping
             s, c = dummy(sp.sin(a)), dummy(sp.cos(a))
             if fresh:
-                relations.append(s ** 2 + c ** 2 - 1)
+                relations.append((s ** 2 + c ** 2 - 1, c, 'trig'))
             return s if isinstance(e, sp.sin) else c
         if isinstance(e, sp.tan):
             a = e.args[0]
@@ -264,30 +264,35 @@ def _opaque_map(expr):
 
 
 def nf_is_zero(expr) -> Optional[bool]:
-    """Decide `expr == 0` as an identity of rational functions over opaque atoms (modulo the stated relations).
+    """Decide `expr == 0` as an identity of rational functions over opaque atoms, modulo the stated relations
+    (sin^2+cos^2=1 per angle, root^q=base per root).
 
-    True  : numerator reduces to 0 modulo the relation ideal  => identically zero wherever defined (sound).
-    False : numerator is a non-zero polynomial and there are no relations => NOT identically zero (complete there).
-    None  : undecided (relations present and remainder non-zero)."""
-    p, rels, _mapping = _opaque_map(expr)
+    The relations form a triangular set, each monic in its own main variable (cos a, resp. the root), hence a
+    Groebner basis; the numerator is reduced to its unique normal form by repeated polynomial remainder.
+    True  : normal form 0  => identically zero wherever defined (sound).
+    False : normal form non-zero, atoms generic (symbols / undefined functions / their derivatives) and only
+            trigonometric relations (prime ideal) => NOT identically zero.
+    None  : undecided."""
+    p, rels, mapping = _opaque_map(expr)
     num, _den = sp.fraction(sp.together(p))
     num = sp.expand(num)
     if num == 0:
         return True
-    generic = all(isinstance(k, (sp.Derivative, sp.Subs)) or isinstance(k, sp.core.function.AppliedUndef)
-                  for k in _mapping)
-    if not rels:
-        # a non-zero polynomial in independent generic atoms is not identically zero; atoms such as exp(x), exp(2*x)
-        # may be algebraically related, so with those present the verdict is only "undecided"
-        return False if generic else None
-    gens = sorted(set().union(num.free_symbols, *[r.free_symbols for r in rels]), key=str)
-    try:
-        G = sp.groebner(rels, *gens, order="grevlex")
-        _, rem = G.reduce(num)
-    except Exception:
-        return None
-    if rem == 0:
+    generic = all(isinstance(k, (sp.Derivative, sp.Subs, sp.sin, sp.cos)) or isinstance(k, sp.core.function.AppliedUndef)
+                  for k in mapping)
+    trig_only = all(kind == 'trig' for _, _, kind in rels)
+    mains = [(rel, main) for rel, main, _ in rels]
+    for _round in range(8):
+        before = num
+        for rel, main in mains:
+            if num.has(main):
+                num = sp.expand(sp.rem(num, rel, main))
+        if num == before:
+            break
+    if num == 0:
         return True
+    if generic and trig_only:
+        return False
     return None
 
 
